@@ -331,8 +331,9 @@ class Check:
     def add_cases(self, n, distinct_keys=None, validated=0):
         self.cov["evaluations"] += n
         if distinct_keys is not None:
+            # only the number of distinct keys is reported: keep 64-bit digests, not the (long) keys themselves
             for k in distinct_keys:
-                self._distinct.add(k)
+                self._distinct.add(int.from_bytes(hashlib.blake2b(repr(k).encode(), digest_size=8).digest(), "big"))
         self.cov["traces_validated_against_impl"] += validated
 
     def sample(self, s, limit=6):
